@@ -7,24 +7,43 @@ META = {
     "level": "model_checking",
     "technique": "TLA+ spec of the freezer at file-system-call granularity with durable/volatile file contents (Freezer.tla) model-checked with TLC over all crash points; real rawdb.Freezer histories with fsync positions from a hook, enumerated crash images reopened in child processes, all validated against FreezerTrace.tla",
     "text": "Freezer.tla compiles every public call (append batches with file rolls, sync, head/tail truncation, reset) and the whole open/repair procedure (checkIndex, repairIndex, the index/data slip loop, cross-table alignment) into the sequence of write/truncate/fsync/rename/unlink calls of freezer_table.go, executes it one call at a time on files with a durable and a volatile content, and lets a crash keep per file any length between the two (written or zero-filled, metadata old or new). TLC checks on bounded histories, for every crash point including crashes during repair, that reopening succeeds, all tables share one range, every readable item is the one appended at that position and everything covered by a completed sync and not truncated since is present. Binding: seeded histories run on a real freezer (64-byte data files, one compressed and one raw table, two tail-group layouts); the rawdb fsync hook gives the durable content of every file; at every fsync (just before it takes effect) and at every call end crash images are materialised and reopened by the real NewFreezer in a child process; FreezerTrace.tla follows the observed fsyncs through the spec's programs (an unexpected or a missing fsync rejects), compares real durable/current file lengths with the model's, recomputes crash+repair for every image and demands the same observable result (Ancients, Tail, every item) and the three clauses of C24.",
-    "note": "File-system model as stated by the property: per-file prefix durability, zero-filled extensions, metadata file old-or-new (torn metadata writes are not modelled), create/unlink/rename durable at once. Histories are single-writer; appended blobs are 6..30 bytes and never exceed the file size limit. TruncateTail is only exercised up to the head covered by the last completed sync: above it the code can leave virtualTail > items after a crash and then refuses to open (EOF) - reproduced by a directed history on every run and reported as PENDING-FINDING C24-F1 (spec/store/NOTES.md). Trusts TLC, the hook positions and the projection in harness/cmd/c24.",
+    "note": "File-system model as stated by the property: per-file prefix durability, zero-filled extensions, metadata file old-or-new (torn metadata writes are not modelled), create/unlink/rename durable at once. Histories are single-writer; appended blobs are 6..30 bytes and never exceed the file size limit. Two ways the pinned code refuses to reopen after a crash are modelled as what the code does (Freezer!KnownF1: virtualTail > items after an unsynced TruncateTail; KnownF2: a non-prunable table emptied beside a non-empty one is fast-forwarded and repair panics); an image that fails to open is accepted only if the specification computes exactly such a failure for it, and is reported as PENDING-FINDING C24-F1/F2 (spec/store/NOTES.md); directed histories reproduce both on every run. Trusts TLC, the hook positions and the projection in harness/cmd/c24.",
     "design_ref": "3.4 C24",
 }
 
 T = 7200
 
 
-def rejects(res):
-    """REJECT diagnostics printed by FreezerTrace!TImageBad (what the specification computes for the rejected image)."""
+def printed(res, tag):
+    """JSON payloads the trace specification printed with PrintT(<<tag, ToJson(..)>>)."""
     out = []
+    pre = '<<"%s", ' % tag
     for line in res.stdout.splitlines():
         line = line.strip()
-        if line.startswith('<<"REJECT", ') and line.endswith('>>'):
+        if line.startswith(pre) and line.endswith('>>'):
             try:
-                out.append(json.loads(json.loads(line[len('<<"REJECT", '):-2])))
+                out.append(json.loads(json.loads(line[len(pre):-2])))
             except Exception:
                 pass
     return out
+
+
+def rejects(res):
+    """diagnostics of FreezerTrace!TImageBad: what the specification computes for the rejected image"""
+    return printed(res, "REJECT")
+
+
+FINDINGS = {
+    # TODO-KNOWN-FINDING: exact fingerprints are FreezerTrace!KnownFailure / Freezer!KnownF1, KnownF2
+    "C24-F1": "TruncateTail above the flushed head + crash leaves virtualTail > items: NewFreezer fails (EOF)",
+    "C24-F2": "a non-prunable table left with 0 items beside a non-empty one (first SyncAncient or TruncateHead(0) interrupted): NewFreezer panics on its non-zero tail",
+}
+
+
+def pending(ctx, res, seen):
+    for p in printed(res, "PENDING"):
+        f = p.get("finding")
+        seen[f] = seen.get(f, 0) + 1
 
 
 def run(ctx):
@@ -37,44 +56,46 @@ def run(ctx):
     else:
         ctx.model_check("store/MCFreezer", "store/MCFreezer2Q", timeout=T, name="MCFreezer-2tables", workers=4)
     # XF + V: real histories, crash images, validated by the trace specification
+    seen = {}
     for cfg, tcfg in (("g2", "store/FreezerTraceG2"), ("mixed", "store/FreezerTraceMixed")):
         tp = os.path.join(ctx.scratch, "trace-%s.ndjson" % cfg)
-        args = ["-mode", "xf", "-cfg", cfg, "-trace", tp, "-dir", os.path.join(ctx.scratch, "fz-" + cfg),
+        args = ["-mode", "xf", "-cfg", cfg, "-unsynced-tail", "-trace", tp, "-dir", os.path.join(ctx.scratch, "fz-" + cfg),
                 "-n", ctx.pick(3, 14), "-steps", ctx.pick(9, 14), "-images", ctx.pick(5, 14)]
         if ctx.thorough:
             args.append("-every-length")
         s, _ = ctx.drive(drv, args, name="c24-xf-" + cfg, timeout=T)
         ok, consumed, total, r = ctx.validate("store/FreezerTrace", tp, cfg=tcfg, ntraces=s["traces"], timeout=T,
                                               name="FreezerTrace-" + cfg)
+        pending(ctx, r, seen)
         if not ok:
             why = rejects(r)
             ctx.reject_trace("store/FreezerTrace", tp, consumed, r, cfg=tcfg,
                              desc="[%s] freezer trace rejected at event %d%s" % (cfg, consumed + 1,
                                   (": specification computes " + json.dumps(why[0])[:600]) if why else ""))
-    # TODO-KNOWN-FINDING (C24-F1, spec/store/NOTES.md): TruncateTail above the flushed head followed by a crash
-    # (or just a kill) leaves virtualTail > items; NewFreezer then fails with EOF.  The histories above keep the
-    # tail below the synced head; this directed history reproduces the finding and is reported as pending.
-    tp = os.path.join(ctx.scratch, "trace-f1.ndjson")
-    ctx.drive(drv, ["-mode", "xf", "-cfg", "g2", "-script", "a2,t1", "-images", 10, "-n", 1, "-trace", tp,
-                    "-dir", os.path.join(ctx.scratch, "fz-f1")], name="c24-finding-F1", timeout=T)
-    ok, consumed, total, r = ctx.validate("store/FreezerTrace", tp, cfg="store/FreezerTraceG2", ntraces=0, timeout=T,
-                                          name="FreezerTrace-finding-F1")
-    why = rejects(r)
-    if ok:
-        ctx.notes.append("C24-F1 not reproduced: the directed history a2,t1 was accepted")
-        ctx.log("C24-F1 not reproduced")
-    else:
-        ex = (why[0].get("explain") if why else None) or {}
-        hid, its = ex.get("table_hidden", {}), ex.get("table_items", {})
-        if ex.get("lens_ok") and any(hid.get(t, 0) > its.get(t, 0) for t in hid):
-            line = "PENDING-FINDING: property=C24 C24-F1 TruncateTail above the flushed head + crash leaves virtualTail > items; reopening fails (directed history a2,t1, image at event %d)" % (consumed + 1)
-            print(line)
-            ctx.notes.append(line)
-        else:
-            ctx.reject_trace("store/FreezerTrace", tp, consumed, r, cfg="store/FreezerTraceG2",
-                             desc="directed history a2,t1 rejected for another reason than C24-F1: " + json.dumps(why[:1])[:600])
+    # directed histories that reproduce the two pending findings on every run (accepted only through the
+    # KnownFailure disjunct of the trace specification; anything else about them is still checked)
+    for name, cfg, tcfg, script in (("F1", "g2", "store/FreezerTraceG2", "a2,t1"),
+                                    ("F2", "mixed", "store/FreezerTraceMixed", "a3,s,h0")):
+        tp = os.path.join(ctx.scratch, "trace-%s.ndjson" % name)
+        ctx.drive(drv, ["-mode", "xf", "-cfg", cfg, "-script", script, "-images", 12, "-n", 1, "-trace", tp,
+                        "-dir", os.path.join(ctx.scratch, "fz-" + name)], name="c24-finding-" + name, timeout=T)
+        ok, consumed, total, r = ctx.validate("store/FreezerTrace", tp, cfg=tcfg, ntraces=1, timeout=T,
+                                              name="FreezerTrace-finding-" + name)
+        before = dict(seen)
+        pending(ctx, r, seen)
+        if not ok:
+            why = rejects(r)
+            ctx.reject_trace("store/FreezerTrace", tp, consumed, r, cfg=tcfg,
+                             desc="directed history %s rejected at event %d%s" % (script, consumed + 1,
+                                  (": specification computes " + json.dumps(why[0])[:600]) if why else ""))
+        elif seen.get("C24-" + name, 0) == before.get("C24-" + name, 0):
+            ctx.notes.append("C24-%s not reproduced by the directed history %s" % (name, script))
+    for f in sorted(seen):
+        line = "PENDING-FINDING: property=C24 %s %s (%d crash images)" % (f, FINDINGS.get(f, ""), seen[f])
+        print(line)
+        ctx.notes.append(line)
     return ctx.finish(rule="MC: all histories within the cfg bounds with a crash at any file-system call (also inside repair); XF: seeded histories x crash points x sampled per-file cuts on the real freezer",
                       assumptions=["per-file prefix durability with zero-filled extensions; metadata file old or new",
                                    "create/unlink/rename/directory operations durable at once",
                                    "single writer; item blobs smaller than the data-file size limit",
-                                   "TruncateTail only up to the synced head (C24-F1 pending above it)"])
+                                   "two known reopen failures (C24-F1, C24-F2) are accepted only when the specification computes exactly that failure for the image; reported as pending findings"])
